@@ -47,8 +47,13 @@ def bumped_lock():
     return os.path.join(d, 'Cargo.lock')
 
 
+_dump = {}
+
+
 def dump_mir():
-    """Returns the MIR text of the lib crate of /repo's current working tree (hooks enabled)."""
+    """Returns the MIR text of the lib crate of /repo's current working tree (hooks enabled); one dump per process."""
+    if 'txt' in _dump:
+        return _dump['txt']
     lock = bumped_lock()
     t0 = time.time()
     out = os.path.join(CACHE, 'mir.%d.txt' % os.getpid())
@@ -64,6 +69,7 @@ def dump_mir():
     if len(txt) < 1000:
         raise RuntimeError('MIR dump is empty')
     log('[mir] dumped %d lines in %.1fs' % (txt.count('\n'), time.time() - t0))
+    _dump['txt'] = txt
     return txt
 
 
